@@ -13,6 +13,13 @@ CHECKS = {
  "C01": ("model_checking", "Every element-wise operation instance (op x index 0..=len+1 x value source x value sink x erased/typed API) is executed on the real AnyVec from every reachable abstract state (len,cap,spare-mode) of every listed configuration and compared step for step with std Vec + identity registry; by induction this covers every history whose states stay inside the bound.", "4/C01", T_MC),
  "C02": ("model_checking", "Every drain/splice instance: every valid range in every RangeBounds form, every invalid range around the boundary and at usize::MAX, every next/next_back string (incl. calls after exhaustion), every per-item sink, replacement lengths 0..=3 from every source kind, erased and typed, from every reachable state; compared with Vec::drain/splice.", "4/C02", T_MC),
  "C14": ("model_checking", "Every iterator kind x every next/next_back string up to len+3 x every clone point (shared iterators), every sub-range for drain/splice, from every reachable state: len()/size_hint() equal the remaining count at every step, items match a VecDeque model, None forever after exhaustion, clones independent.", "4/C14", T_MC),
+ "C03": ("model_checking", "The union of the element-wise, drain/splice, clone and lazy-clone operation instances (1-3 vectors exchanging elements, every sink kind) is executed from every reachable state with identity-tagged elements whose Drop/Clone report to a registry: after every edge no id is destroyed twice, destroyed while visible, visible twice or garbage, and after dropping all vectors nothing is alive; ZST / no-drop layouts are accounted by count / by value.", "4/C03", T_MC + "; identity registry oracle"),
+ "C04": ("model_checking", "From every reachable state every checked entry point (push, insert at every index, splice item at every position, swap for four handle kinds, thirteen downcast entry points) is offered each of seven foreign types (incl. same-size/same-align ones): mismatch must panic / return None leaving the vector unchanged (valid for splice) and dropping the rejected value once; the real type must succeed; type/layout reports are checked.", "4/C04", T_MC + "; type-admission oracle"),
+ "C05": ("model_checking", "The C01/C02/C08/C09 transition space is executed on an instrumented user backend (guard zones, poison, relocate on every capacity change, quarantine, Mem event log) and on Heap under an instrumented global allocator with the same features; after every edge guard zones, quarantined blocks and the Mem lifecycle (one build with the element layout, one release, nothing after release) are checked.", "4/C05", T_MC + "; instrumented-storage oracle"),
+ "C07": ("model_checking", "For every removal handle and every drain/splice range x consumption prefix x forget stage (iterator, last yielded item, both), mem::forget is applied on the real vector from every reachable state, then one of eleven follow-up operations and drop: prefix unchanged, survivors unique live originals, yielded items (moved into another vector) not visible again, no double drop.", "4/C07", T_MC + "; forget at every stage"),
+ "C08": ("model_checking", "From every reachable state: clone() (clone count == len, contents are clones in order, disjoint storage) followed by each of eleven operations on either side with the other side unchanged; clone_empty and clone_empty_in for five target backends, each required to accept, clone and destroy values.", "4/C08", T_MC),
+ "C09": ("model_checking", "Every cloneable source kind (ElementRef, ElementMut, pop/remove/swap_remove handle, drained element) x chain depth 1..3 x 0..3 consumptions x {push, insert front, insert middle, downcast} x unconsumed copies, from every reachable state: Clone calls == consumptions exactly, nothing destroyed, destination holds clones of the source, source still usable afterwards.", "4/C09", T_MC + "; clone counter oracle"),
+ "C13": ("model_checking", "Every accessor x index 0..=len+1; every (writer kind, reader kind) pair out of 8 x 6 view kinds at every index; swap for every admissible pairing of six value-handle kinds in both dispatch orders; from every reachable state.", "4/C13", T_MC),
 }
 NOT_YET = "check not built yet (see DESIGN.md implementation order)"
 
